@@ -305,7 +305,9 @@ int XMLAbstractDoubleFloat::compareValues(const XMLAbstractDoubleFloat* const lV
     //
     else
     {
-        return (-1) * compareSpecial(rValue, manager);
+        // INDETERMINATE must stay INDETERMINATE when the operands are swapped
+        const int result = compareSpecial(rValue, manager);
+        return (result == INDETERMINATE) ? INDETERMINATE : (-1) * result;
     }
 }
 
